@@ -12,4 +12,5 @@ CONSTANTS
   TG = 1
   QuietTicks = FALSE
   Depth = 36
+  Dice = 1
 CONSTRAINT Emit
